@@ -405,6 +405,14 @@ calculate_32bit_addressing: // Label for the 32-bit logic start
 			}
 		}
 
+		// ベースが EBP で変位がない場合は mod=01 + disp8=0 でエンコードする。
+		// (mod=00 かつ SIB.base=101 は「ベースなし + disp32」を意味し、EBP が失われる)
+		if mem.BaseReg == "EBP" && mod == 0b00000000 {
+			mod = 0b01000000
+			disp = 0
+			hasDisp = true
+		}
+
 		// Handle special case: mod=00 and base=EBP ([EBP+index*scale+disp32])
 		// In this case, base field must be 5 (EBP), and a disp32 is always present.
 		if mod == 0b00000000 && baseNum == 5 { // baseNum 5 corresponds to EBP
